@@ -85,7 +85,7 @@ def h_chunk(f, ns, sched, start='zero', pastify=False, oracle='both', grid=None)
 
     def body(env):
         A = env.A
-        son = ct.make_spec('online', 'out = ' + text(f), vs, pastify=pastify)
+        son = ct.make_spec('online~', 'out = ' + text(f), vs, pastify=pastify)
         sigs = {v: ct.signal(env, v, n, start, grid=grid) for v, n in zip(vs, ns)}
         outs = []
         U = len(sched[0])
@@ -103,7 +103,7 @@ def h_chunk(f, ns, sched, start='zero', pastify=False, oracle='both', grid=None)
         got = refct.val(A, cat, tau)
         if oracle in ('both', 'offline'):
             # after pastify() the online output at tau is the offline robustness of the ORIGINAL formula at tau - h
-            soff = ct.make_spec('offline', 'out = ' + text(f), vs)
+            soff = ct.make_spec('offline~', 'out = ' + text(f), vs)
             off = soff.evaluate(*[[v, [list(p) for p in sigs[v]]] for v in vs])
             if not off:
                 res.append(('offline-empty', A.false))
